@@ -77,8 +77,16 @@
 (define-fun listSmallEnd ((T (Array Int Int)) (s Int) (k Int)) Int (be16 T (+ s (* 2 k))))
 (define-fun listBigEnd   ((T (Array Int Int)) (s Int) (k Int)) Int (be32 T (+ s (* 4 k))))
 ; ---- floats (IEEE-754 through the SMT floating-point theory; one NaN value, +0 and -0 distinct)
-(define-fun f32OfBits ((n Int)) (_ FloatingPoint 8 24) ((_ to_fp 8 24) ((_ int2bv 32) n)))
-(define-fun f64OfBits ((n Int)) (_ FloatingPoint 11 53) ((_ to_fp 11 53) ((_ int2bv 64) n)))
+; Bit reinterpretation is kept ABSTRACT: f32OfBits / f64OfBits (bits -> value) and f32bits / f64bits
+; (value -> bits) are uninterpreted, related only by "reading back the bits of a value gives the
+; value" and the bit-pattern range. The codecs treat the pattern as opaque bytes, so nothing else
+; is needed, and no int<->bit-vector conversion ever reaches the solver.
+(declare-fun f32OfBits (Int) (_ FloatingPoint 8 24))
+(declare-fun f64OfBits (Int) (_ FloatingPoint 11 53))
+(declare-fun f32bits ((_ FloatingPoint 8 24)) Int)
+(declare-fun f64bits ((_ FloatingPoint 11 53)) Int)
+(assert (forall ((x (_ FloatingPoint 8 24))) (! (and (= (f32OfBits (f32bits x)) x) (<= 0 (f32bits x)) (<= (f32bits x) 4294967295)) :pattern ((f32bits x)))))
+(assert (forall ((x (_ FloatingPoint 11 53))) (! (and (= (f64OfBits (f64bits x)) x) (<= 0 (f64bits x)) (<= (f64bits x) 18446744073709551615)) :pattern ((f64bits x)))))
 (define-fun f64of32 ((x (_ FloatingPoint 8 24))) (_ FloatingPoint 11 53) ((_ to_fp 11 53) RNE x))
 (define-fun f32of64 ((x (_ FloatingPoint 11 53))) (_ FloatingPoint 8 24) ((_ to_fp 8 24) RNE x))
 ; largest finite float32 as a float64: 0x47EFFFFFE0000000
